@@ -65,3 +65,52 @@ def segments(mem: dict):
     if cur_start is not None:
         out.append((cur_start, bytes(cur)))
     return out
+
+
+def _rec(addr16: int, typ: int, data: bytes, lower=False) -> str:
+    body = bytes([len(data), (addr16 >> 8) & 0xFF, addr16 & 0xFF, typ]) + data
+    body += bytes([(-sum(body)) & 0xFF])
+    h = body.hex()
+    return ":" + (h if lower else h.upper())
+
+
+def write_hex(segs, reclen=16, order="asc", mode="linear", redundant_base=False, start=None, lower=False,
+              eol="\n", blank_tail=False, shuffle=None) -> bytes:
+    """Render [(address, bytes), ...] as Intel-HEX text in one of the many legal forms a linker, objcopy, srec_cat or
+    a hand-written script produces: data records of `reclen` bytes (never crossing a 64 KiB boundary), in ascending,
+    descending or `shuffle`d (a callable permuting a list in place) order, with 04 (linear) or 02 (segment, only below
+    1 MiB) base records, optionally a base record before *every* data record, an optional start-address record
+    (("05", value) or ("03", value)), lower-case digits, LF or CR LF, blank lines at the end."""
+    recs = []
+    for addr, data in segs:
+        off = 0
+        while off < len(data):
+            a = addr + off
+            n = min(reclen, len(data) - off, 0x10000 - (a & 0xFFFF))
+            recs.append((a, data[off:off + n]))
+            off += n
+    if order == "desc":
+        recs.reverse()
+    elif order == "shuffled" and shuffle:
+        shuffle(recs)
+    lines, base = [], None
+    for a, chunk in recs:
+        if mode == "segment" and a < (1 << 20):
+            b, lo = a & 0xF0000, a & 0xFFFF
+            if base != ("s", b) or redundant_base:
+                lines.append(_rec(0, 2, bytes([(b >> 12) & 0xFF, (b >> 4) & 0xFF]), lower))
+                base = ("s", b)
+        else:
+            b, lo = a >> 16, a & 0xFFFF
+            if base != ("l", b) or redundant_base:
+                if not (base is None and b == 0 and not redundant_base):
+                    lines.append(_rec(0, 4, bytes([b >> 8, b & 0xFF]), lower))
+                base = ("l", b)
+        lines.append(_rec(lo, 0, chunk, lower))
+    if start:
+        lines.append(_rec(0, 5 if start[0] == "05" else 3, start[1].to_bytes(4, "big"), lower))
+    lines.append(_rec(0, 1, b"", lower))
+    text = eol.join(lines) + eol
+    if blank_tail:
+        text += eol + eol
+    return text.encode("ascii")
